@@ -81,12 +81,18 @@ def custom_table_text(rnd):
     keep = FROZEN | {n for n, a in AUDIT.items() if a.get('cls') not in ('SYS0', 'SYS1', 'SYS2')}
     dropped = set(rnd.sample(sorted(new), len(new) // 4)) - keep
     lines = []
-    for n, i in new.items():
+    extra = {}
+    free = iter(range(0x7a000000, 0x7a100000, 4))
+    for n in rnd.sample(decodable, min(len(decodable), rnd.choice([0, 3, 30]))):
+        if n not in dropped and AUDIT[n].get('cls') in ('SYS0', 'SYS1', 'SYS2'):
+            extra[next(free)] = n                      # the same decodable name under a second id
+    for n, i in list(new.items()) + [(n, i) for i, n in extra.items()]:
         if n in dropped:
             continue
         lines.append('%s%s%s' % (spell(rnd, i), rnd.choice(WS), n) + ('\t#c' if rnd.random() < 0.1 else ''))
     rnd.shuffle(lines)
     intended = {i: n for n, i in new.items() if n not in dropped}
+    intended.update(extra)
     return '\n'.join(lines) + '\n', dropped, intended
 
 
